@@ -89,6 +89,11 @@ func runEsc(r *Run, forms []*escForm, inputs func(emit func(in []byte, class str
 			r.Violate(sig+" "+bad, bad, desc)
 			continue
 		}
+		if c.Form.Cmd == "jsonq" && len(c.In) == 0 {
+			// quoting an empty value: "" for an empty string, nothing for a missing variable
+			// (SetBytes/SetString of length 0 read back as missing); covered by the interpreter checks.
+			continue
+		}
 		if model != hx(c.Go.Out) {
 			r.TieBreak(c.Form.Cmd+" model ≙ implementation", desc, hx(c.Go.Out), model)
 		}
